@@ -287,3 +287,11 @@ func NewTicker(d time.Duration) *Ticker {
 
 // Stop turns off the ticker.
 func (t *Ticker) Stop() { t.once.Do(func() { close(t.stop) }) }
+
+// PickSend is Pick for the channel of a send case.
+func PickSend[T any](g GateChoice, i int, ch chan<- T) chan<- T {
+	if g.chosen >= 0 && g.chosen != i && i < len(g.ready) && g.ready[i] {
+		return nil
+	}
+	return ch
+}
